@@ -1,1 +1,3 @@
+pub mod relations;
 pub mod text;
+pub mod typed;
